@@ -74,6 +74,13 @@ import (
 
 const longD = 100 // fail_duration ≥ longD ticks never elapses inside a case
 
+// knownClass is the failure class of the defect of the unchanged tree (known_findings.jsonl).
+const knownClass = "host-not-preserved-after-failed-provision"
+
+// enoughFailures: once this many generated cases have failed the oracle the run stops
+// generating (the check needs one failing input, not ten thousand slow ones).
+const enoughFailures = 40
+
 // ---------------------------------------------------------------- probe module
 
 // Probe is the response handler used in handle_response routes.
@@ -102,9 +109,11 @@ type prop struct {
 	cache   sync.Map // line -> core.Outcome, filled by Generate's worker pool
 	nextDir atomic.Int64
 	slow    atomic.Int64 // cases in which a due forgetter did not run / a request hung
+	failed  atomic.Int64 // cases with an oracle failure other than the known finding
 	stats   struct {
 		sync.Mutex
 		retimed int
+		raced   int
 		cases   int
 	}
 }
@@ -157,6 +166,7 @@ func (p *prop) Finish(s *core.Session) {
 	}
 	s.Meta.Extra["cases_run"] = p.stats.cases
 	s.Meta.Extra["cases_rerun_with_longer_tick"] = p.stats.retimed
+	s.Meta.Extra["cases_rerun_after_scheduler_noise_in_tryAgain"] = p.stats.raced
 	p.stats.Unlock()
 }
 
@@ -535,7 +545,7 @@ func (k *kase) handlerJSON(st step, bad bool) []byte {
 		lb["retries"] = st.r
 		// a positive interval makes tryAgain select between its timer and ctx.Done(): a handler
 		// whose configuration is already unloaded deterministically stops retrying
-		lb["try_interval"] = int64(time.Millisecond)
+		lb["try_interval"] = int64(4 * time.Millisecond)
 	}
 	m := map[string]any{
 		"upstreams":      ups,
@@ -902,6 +912,13 @@ func (p *prop) runSched(K int, src stepSource, U time.Duration) (impl string, k 
 				k.tag("moved-on-unloaded-config")
 			}
 			ev = k.waitReq(r)
+			if r.cfg.canceled && strings.HasPrefix(ev, "P") {
+				// tryAgain of an unloaded configuration selects between its interval timer and
+				// the closed ctx.Done(): a retry is only possible if the goroutine was held up
+				// for longer than try_interval right before the select (both cases ready).
+				// That is scheduler noise, not a schedule: run the case again.
+				k.raced = true
+			}
 		case 'D':
 			if k.backends[st.key].srv == nil {
 				ok = false
@@ -1076,7 +1093,14 @@ func (p *prop) execSched(K int, src stepSource, minAttempt int) (core.Outcome, [
 		if !ok {
 			return core.Outcome{Impl: "bad-op", Tags: []string{"bad-op-semantic", "trivial"}}, k.done
 		}
-		if k.late && attempt < 5 {
+		if k.raced && attempt < 5 {
+			p.stats.Lock()
+			p.stats.raced++
+			p.stats.Unlock()
+			src = &replaySource{steps: k.done}
+			continue
+		}
+		if k.late && attempt < 5 && !k.forgetTimedOut && k.infra == "" {
 			U *= 2
 			p.stats.Lock()
 			p.stats.retimed++
@@ -1093,6 +1117,12 @@ func (p *prop) execSched(K int, src stepSource, minAttempt int) (core.Outcome, [
 		}
 		if len(k.reqs) == 0 {
 			tags = append(tags, "trivial")
+		}
+		for _, f := range k.failures {
+			if f.Class != knownClass {
+				p.failed.Add(1)
+				break
+			}
 		}
 		return core.Outcome{Impl: impl, Tags: tags, Failures: k.failures}, k.done
 	}
